@@ -1136,7 +1136,6 @@ def run_case(ctx, case):
     guards = {"skip_uncertainties": None, "gof_sensitivity": 0.0, "cov_ref": yo["cov"], "free_ref": yo["free"]}
     guards["parabolic"] = all(r.model.linear and not r.has_x_source() and not any(s_["reference"] == "model" for s_ in r.sources) for r in base.refs)
     # first-order sensitivity of chi2 (= cost - ln det V) to the position of the optimum, per sigma (yardstick only)
-    pvec = np.array([pdo[n] for n in names], dtype=float)
     for r in base.refs:
         if not (r.has_x_source() or any(s_["reference"] == "model" and s_["enabled"] for s_ in r.sources)):
             continue
